@@ -318,7 +318,9 @@ def compare(typ, op, v, lit, tz="UTC", now=None):
     if typ == "text":
         return text_cmp(op, v, lit)
     if typ == "bool":
-        return {"=": v == lit, "===": v == lit, "!=": v != lit, "!==": v != lit}[op]
+        # ordering operators on booleans: false < true (the usual SQL order)
+        return {"=": v == lit, "===": v == lit, "!=": v != lit, "!==": v != lit, ">": v > lit, ">=": v >= lit,
+                "<": v < lit, "<=": v <= lit}[op]
     if typ == "date":
         iv = date_interval(lit, tz, now)
         if iv is None:
